@@ -91,3 +91,149 @@ Proof.
   intros Hok Hn k. rewrite slookup_set_nth by (eapply nth_lt; eauto). rewrite (Nat.eqb_sym i).
   destruct (Nat.eqb (shard_of k) i); reflexivity.
 Qed.
+
+Ltac res_ok :=
+  let r := fresh "r" in let Hr := fresh "Hr" in
+  intros r Hr; cbn [res finish finish_hold set_pc resume] in Hr;
+  first [ left; exact Hr
+        | destruct Hr as [<-|Hr]; [right; split; [discriminate | intros [Q|Q]; discriminate Q] | left; exact Hr] ].
+
+Ltac simp_lk := unfold lk; cbn [shs thr glast upd upd_th upd_sh mark_race set_glast set_gleak].
+
+Lemma step_effect t s s' : inv1 s -> step t s = Some s' ->
+  exists th th', lget (thr s) t = Some th /\ thr s' = lset (thr s) t th' /\ effect s s' th th' /\ results_ok s th th'.
+Proof.
+  intros Hinv H. unfold step in H.
+  destruct (lget (thr s) t) as [th|] eqn:Hth; [|discriminate].
+  assert (Ht := proj2 Hinv t th Hth).
+  assert (Hso := proj1 Hinv).
+  destruct (pc th) eqn:Hpc.
+  all: try (unfold start_op in H).
+  all: brk H.
+  all: try (inversion H; subst s'; clear H).
+  all: try match goal with |- context [match ents ?x with _ => _ end] => destruct (ents x) eqn:? end.
+  all: exists th; eexists; (split; [reflexivity|]); (split; [reflexivity|]).
+  (* nothing but the thread changed *)
+  all: try (solve [split; [apply EfNone; [intros ?; apply same_strip_refl | reflexivity | reflexivity] | res_ok]]).
+  all: try (solve [destruct c; (split; [apply EfNone; [intros ?; apply same_strip_refl | reflexivity | reflexivity] | res_ok])]).
+  (* facts about the shard being touched *)
+  all: try match goal with
+       | Hn : nth_error (shs _) ?i = Some ?sh |- _ =>
+           let Hwf := fresh "Hwf" in let Hkeys := fresh "Hkeys" in
+           destruct (proj2 Hso i sh Hn) as (Hwf & Hkeys)
+       end.
+  all: try match goal with
+       | Ht : tinv _ _ ?P, E : nth_error (shs _) (shard_of (gk ?g)) = Some ?sh |- _ =>
+           let Hlk := fresh "Hlk" in let Habs := fresh "Habs" in let Hroom := fresh "Hroom" in
+           destruct (tinv_gi _ _ P g _ sh Ht eq_refl E) as (Hlk & Habs & Hroom)
+       end.
+  all: try match goal with
+       | Ht : tinv _ _ ?P, E : nth_error (shs _) ?i = Some ?sh |- _ =>
+           let Hlk := fresh "Hlk" in let Htodo := fresh "Htodo" in
+           destruct (tinv_ev _ _ P i _ sh Ht eq_refl E) as (Hlk & Htodo)
+       end.
+  (* outcomes that a well-formed shard excludes *)
+  all: try match goal with
+       | Hp : probe_shard _ _ = PrPanic |- _ => exfalso; eapply probe_panic; eauto
+       | Er : evict_remove ?x = ENotIndexed _ |- _ => exfalso; exact (proj1 (evict_remove_never x _ Hwf) Er)
+       | Er : evict_remove ?x = EPanicked _ |- _ => exfalso; exact (proj2 (evict_remove_never x _ Hwf) Er)
+       | Hi : idx_get (idx ?sh) ?k = Some ?n, Hn : nth_error (ents ?sh) ?n = None |- _ =>
+           exfalso; apply (proj1 Hwf) in Hi; destruct Hi as (x & Hx & _); congruence
+       | Hi : idx_get (idx ?sh) ?k = Some ?n, Hn : hit_entry ?sh ?n = None |- _ =>
+           exfalso; apply (proj1 Hwf) in Hi; destruct Hi as (x & Hx & _); unfold hit_entry in Hn; rewrite Hx in Hn; discriminate
+       | Hr : remove ?sh ?n = None |- _ =>
+           exfalso; destruct (proj2 Htodo n (or_introl eq_refl)) as (x & Hx & _); destruct (remove_some _ _ _ Hx) as (y & Hy); congruence
+       end.
+  (* lock / unlock / evict that found nothing: lookups unchanged up to visited flags *)
+  all: try (solve [split; [apply EfNone; [simp_lk; eapply lift_strip; [eassumption | intros ?; apply same_strip_refl] | reflexivity | reflexivity] | res_ok]]).
+  all: try match goal with
+       | Er : evict_remove ?x = ENothing ?y |- _ =>
+           solve [split; [apply EfNone; [simp_lk; eapply lift_strip; [eassumption | intros ?; eapply (lookup_evict_nothing x y); eassumption] | reflexivity | reflexivity] | res_ok]]
+       end.
+  (* hits *)
+  all: try match goal with
+       | Hp : probe_shard ?sh ?k = PrHit ?sh', En : nth_error (shs _) _ = Some ?sh |- _ =>
+           let j := fresh "j" in let Hw := fresh "Hw" in let Hj := fresh "Hj" in let Hh := fresh "Hh" in
+           destruct (probe_hit _ _ _ Hp) as (Hw & j & Hj & Hh);
+           destruct (lookup_hit _ _ _ _ (proj1 Hwf) Hj Hh) as (e0 & Hl0 & Hpt);
+           destruct (lift_point _ _ _ _ _ _ En eq_refl Hpt) as (Hat & Hoth);
+           split; [apply (EfHit _ _ _ _ k e0); [simp_lk; rewrite (slookup_shard _ _ _ En); exact Hl0 | simp_lk; exact Hat | simp_lk; exact Hoth | reflexivity | reflexivity] | res_ok]
+       | Hh : hit_entry ?sh ?n = Some ?sh', Hj : idx_get (idx ?sh) ?k = Some ?n, En : nth_error (shs _) _ = Some ?sh |- _ =>
+           destruct (lookup_hit _ _ _ _ (proj1 Hwf) Hj Hh) as (e0 & Hl0 & Hpt);
+           destruct (lift_point _ _ _ _ _ _ En eq_refl Hpt) as (Hat & Hoth);
+           split; [apply (EfHit _ _ _ _ k e0); [simp_lk; rewrite (slookup_shard _ _ _ En); exact Hl0 | simp_lk; exact Hat | simp_lk; exact Hoth | reflexivity | reflexivity] | res_ok]
+       end.
+  - (* unpin of a page whose pin count is 0: wraps and panics *)
+    assert (Hpt := fun k' => lookup_set_entry s0 k n e (set_pin e 4294967295) k' (proj1 Hwf) E4 E5 eq_refl).
+    destruct (lift_point _ _ _ _ _ _ E2 eq_refl Hpt) as (Hat & Hoth).
+    assert (Hl0 : lk s k = Some e) by (unfold lk; rewrite (slookup_shard _ _ _ E2); unfold lookup; rewrite E4; exact E5).
+    split.
+    + apply (EfUnpin _ _ _ _ k e); [exact E1 | exact Hl0 | simp_lk; rewrite E6; exact Hat | simp_lk; exact Hoth | reflexivity | reflexivity].
+    + intros r Hr. cbn [res finish] in Hr. destruct Hr as [<-|Hr]; [|left; exact Hr].
+      right. split; [discriminate|]. intros _. exists k. split; [exact E1|].
+      unfold pin_at. fold (lk s k). rewrite Hl0. apply Z.eqb_eq in E6. lia.
+  - (* ordinary unpin *)
+    assert (Hpt := fun k' => lookup_set_entry s0 k n e (set_pin e (epin e - 1)) k' (proj1 Hwf) E4 E5 eq_refl).
+    destruct (lift_point _ _ _ _ _ _ E2 eq_refl Hpt) as (Hat & Hoth).
+    assert (Hl0 : lk s k = Some e) by (unfold lk; rewrite (slookup_shard _ _ _ E2); unfold lookup; rewrite E4; exact E5).
+    split; [|res_ok].
+    apply (EfUnpin _ _ _ _ k e); [exact E1 | exact Hl0 | simp_lk; rewrite E6; exact Hat | simp_lk; exact Hoth | reflexivity | reflexivity].
+  - (* unpin of a page that is not resident *)
+    split; [|res_ok].
+    apply (EfUnpinAbsent _ _ _ _ k); [exact E1 | unfold lk; rewrite (slookup_shard _ _ _ E2); apply lookup_idx_none; [apply Hwf | exact E4] | reflexivity | reflexivity | reflexivity].
+  - (* write through a PageRef *)
+    assert (Hpt := fun k' => lookup_set_entry s0 k n e (set_data e v) k' (proj1 Hwf) E4 E5 eq_refl).
+    destruct (lift_point _ _ _ _ _ _ E2 eq_refl Hpt) as (Hat & Hoth).
+    assert (Hl0 : lk s k = Some e) by (unfold lk; rewrite (slookup_shard _ _ _ E2); unfold lookup; rewrite E4; exact E5).
+    split; [|res_ok].
+    apply (EfWrite _ _ _ _ k e v); [exact Hl0 | simp_lk; exact Hat | simp_lk; exact Hoth | reflexivity | reflexivity].
+  - (* write through a PageRef whose page is gone: data_mut panics *)
+    assert (Hl0 : lk s k = None) by (unfold lk; rewrite (slookup_shard _ _ _ E2); apply lookup_idx_none; [apply Hwf | exact E4]).
+    split; [apply EfNone; [intros ?; apply same_strip_refl | reflexivity | reflexivity]|].
+    intros r Hr. cbn [res finish] in Hr. destruct Hr as [<-|Hr]; [|left; exact Hr].
+    right. split; [discriminate|]. intros _. exists k. split; [exact E1|].
+    unfold pin_at. fold (lk s k). rewrite Hl0. lia.
+  - (* the budget loop evicts a page *)
+    match goal with Er : evict_remove ?x = ERemoved ?y, En : nth_error (shs _) _ = Some ?x |- _ =>
+      destruct (lookup_evict_removed x y Hwf Er) as (v & Hv & Hvp & Hrm);
+      assert (Hvs : shard_of (ekey v) = shard_of (gk g)) by (apply Hkeys; apply (proj1 (lookup_iff x (ekey v) v (proj1 Hwf))); exact Hv);
+      destruct (lift_remove _ _ _ _ _ En Hvs Hrm) as (Hat & Hoth);
+      split; [|res_ok];
+      apply (EfRemove _ _ _ _ (ekey v) v); [unfold lk, slookup; rewrite Hvs, En; exact Hv | exact Hvp | simp_lk; exact Hat | simp_lk; exact Hoth | reflexivity | reflexivity]
+    end.
+  - (* the full shard evicts a page *)
+    match goal with Er : evict_remove ?x = ERemoved ?y, En : nth_error (shs _) _ = Some ?x |- _ =>
+      destruct (lookup_evict_removed x y Hwf Er) as (v & Hv & Hvp & Hrm);
+      assert (Hvs : shard_of (ekey v) = shard_of (gk g)) by (apply Hkeys; apply (proj1 (lookup_iff x (ekey v) v (proj1 Hwf))); exact Hv);
+      destruct (lift_remove _ _ _ _ _ En Hvs Hrm) as (Hat & Hoth);
+      split; [|res_ok];
+      apply (EfRemove _ _ _ _ (ekey v) v); [unfold lk, slookup; rewrite Hvs, En; exact Hv | exact Hvp | simp_lk; exact Hat | simp_lk; exact Hoth | reflexivity | reflexivity]
+    end.
+  - (* insert *)
+    match goal with En : nth_error (shs _) _ = Some ?x |- _ =>
+      assert (Hpt : forall k', lookup (set_wl (insert x (mkE (gk g) true 1 (gv g))) None) k' = if k' =? gk g then Some (mkE (gk g) true 1 (gv g)) else lookup x k')
+        by (intros k'; exact (lookup_insert x (mkE (gk g) true 1 (gv g)) k' (proj1 Hwf)));
+      destruct (lift_point _ _ _ _ _ _ En eq_refl Hpt) as (Hat & Hoth);
+      split; [|res_ok];
+      apply (EfInsert _ _ _ _ (gk g) (gv g)); [unfold lk; rewrite (slookup_shard _ _ _ En); apply lookup_idx_none; [apply Hwf | exact Habs] | simp_lk; exact Hat | simp_lk; exact Hoth | reflexivity | reflexivity]
+    end.
+  - (* clear an empty shard *)
+    split; [|res_ok].
+    apply (EfClear _ _ _ _ i); [rewrite Hpc; reflexivity | simp_lk; apply lift_clear; [exact Hso | eassumption] | reflexivity | reflexivity].
+  - (* clear a non-empty shard *)
+    split; [|res_ok].
+    apply (EfClear _ _ _ _ i); [rewrite Hpc; reflexivity | simp_lk; apply lift_clear; [exact Hso | eassumption] | reflexivity | reflexivity].
+  - (* evict_all_unpinned removes the next unpinned page *)
+    match goal with Er : remove ?x ?n = Some ?y, En : nth_error (shs _) _ = Some ?x |- _ =>
+      destruct (proj2 Htodo n (or_introl eq_refl)) as (e & He & Hep);
+      assert (Hin : In e (ents x)) by (eapply nth_error_In; eauto);
+      assert (Hvs : shard_of (ekey e) = i) by (apply Hkeys; exact Hin);
+      assert (Hrm : forall k', same_strip (lookup y k') (if k' =? ekey e then None else lookup x k'))
+        by (intros k'; rewrite (lookup_remove x n y e k' Hwf Er He); apply same_strip_refl);
+      destruct (lift_remove _ _ _ _ _ En Hvs Hrm) as (Hat & Hoth);
+      split; [|res_ok];
+      apply (EfRemove _ _ _ _ (ekey e) e);
+        [unfold lk, slookup; rewrite Hvs, En; apply (lookup_iff x (ekey e) e (proj1 Hwf)); split; [exact Hin | reflexivity]
+        | unfold is_pinned in Hep; apply Z.ltb_ge in Hep; lia | simp_lk; exact Hat | simp_lk; exact Hoth | reflexivity | reflexivity]
+    end.
+Qed.
